@@ -28,6 +28,9 @@ static const char *const fmts[] = {
 	"a\n",
 	"%lu\n",
 	"%s|%lu\n", /* with a string of any length 0..199: formatted lengths sweep past every plausible buffer size */
+	"",	    /* a message whose text is empty */
+	"%s",	    /* ... or may be empty, depending on its argument; no trailing newline */
+	"no newline %lu",
 };
 #define NFMT (sizeof(fmts) / sizeof(fmts[0]))
 static const char *const words[] = { "alpha", "beta", "gamma", "", "a longer string with spaces" };
@@ -84,6 +87,8 @@ static msg_t gen_msg(vh_rng_t *r, uint64_t serial)
 		m.a[0] = (uintptr_t)words[vh_below(r, 5)];
 		m.a[1] = serial;
 	}
+	if (m.fmt == 10)
+		m.a[0] = (uintptr_t)words[vh_below(r, 2) ? 3 : vh_below(r, 5)];
 	if (m.fmt == 8) {
 		m.a[0] = (uintptr_t)longstr[vh_below(r, 200)];
 		m.a[1] = serial % 1000;
@@ -99,6 +104,8 @@ static void do_log(const msg_t *m, int nice)
 #pragma GCC diagnostic ignored "-Wformat-nonliteral"
 #pragma GCC diagnostic ignored "-Wformat-security"
 #pragma GCC diagnostic ignored "-Wformat-extra-args"
+	if (m->fmt == 9 || (m->fmt == 10 && !*(const char *)m->a[0]))
+		VH_COUNT("messages_with_empty_text");
 	if (nice)
 		mlog_nice(fmts[m->fmt], m->a[0], m->a[1], m->a[2]);
 	else
